@@ -3,6 +3,8 @@ package postgresql
 import (
 	"context"
 
+	"github.com/jackc/pgx/v5/pgtype"
+
 	"github.com/cossacklabs/acra/decryptor/base"
 	"github.com/cossacklabs/acra/decryptor/base/type_awareness"
 	"github.com/cossacklabs/acra/decryptor/postgresql/types"
@@ -28,10 +30,10 @@ func (p *PgSQLDataEncoderProcessor) ID() string {
 // OnColumn encode binary value to text and back. Should be before and after tokenizer processor
 func (p *PgSQLDataEncoderProcessor) OnColumn(ctx context.Context, data []byte) (context.Context, []byte, error) {
 	if len(data) == 0 {
-		// an empty value that was only decoded (not decrypted) of a column without declared data type goes back
+		// an empty value that was only decoded (not decrypted) of a column without declared data type (or declared as bytes) goes back
 		// in the same form as it came from the database (for example "\\x" of an empty bytea)
 		if encodedValue, ok := base.GetEncodedValueFromContext(ctx); ok && !base.IsDecryptedFromContext(ctx) {
-			if setting, ok := encryptor.EncryptionSettingFromContext(ctx); !ok || setting.GetDBDataTypeID() == 0 {
+			if setting, ok := encryptor.EncryptionSettingFromContext(ctx); !ok || setting.GetDBDataTypeID() == 0 || setting.GetDBDataTypeID() == pgtype.ByteaOID {
 				return ctx, encodedValue, nil
 			}
 		}
